@@ -322,7 +322,11 @@ func (e *Enc) wf(v Term, t types.Type, st *State, depth int) Term {
 	case *types.Slice:
 		return fmt.Sprintf("(and (>= (sarr %s) %s) (>= (soff %s) 0) (>= (slen %s) 0) (<= (slen %s) (scap %s)) (<= (scap %s) 9223372036854775807) (<= (soff %s) 9223372036854775807) (=> (= (sarr %s) 0) (= (scap %s) 0)))",
 			v, e.alloc(st), v, v, v, v, v, v, v, v)
-	case *types.Map, *types.Chan:
+	case *types.Chan:
+		// channels of different element types are different channels
+		e.B.declTop("chtype", "(declare-fun chtype (Int) Int)")
+		return fmt.Sprintf("(and (>= %s %s) (or (= %s 0) (= (chtype %s) %d)))", v, e.alloc(st), v, v, e.B.typeID(u.Elem()))
+	case *types.Map:
 		return "(>= " + v + " " + e.alloc(st) + ")"
 	case *types.Struct:
 		if depth <= 0 {
